@@ -5,6 +5,8 @@ import Skc.Model.Det
 import Skc.Model.Conv
 import Skc.Model.Cuts
 import Skc.Model.Anomaliser
+import Skc.Model.Datagen
+import Skc.Model.Config
 import Skc.Gen.KernelsFloat
 /-! Line-protocol driver over the executable models (`lake exe skcdrv` or
     `lake env lean --run Driver.lean`): one operation per input line, one canonical output line
@@ -287,6 +289,99 @@ def handleStatAnom (ws : List String) : String :=
     | _, _, _, _, _ => "bad-op"
   | _ => "bad-op"
 
+/-- `np.linspace(0, n-1, k, dtype=int)` as NumPy computes it: `trunc(i * ((n-1)/(k-1)))` in double
+    precision, the last element set to `n-1` exactly -/
+def linspaceFloat (n k : Nat) : List Nat :=
+  if k = 0 then [] else if k = 1 then [0] else
+  let step : Float := (n - 1).toFloat / (k - 1).toFloat
+  (List.range k).map (fun i => if i = k - 1 then n - 1 else (i.toFloat * step).floor.toUInt64.toNat)
+
+/-- `gensegs n nseg (s e m sd)×nseg z_0 … z_{n-1}` → the transformed column (exact rationals);
+    `genvalid changing n k c_1..c_k nMeans nVars` / `genvalid anomalous n k (s e)×k nMeans nVars`;
+    `linpos n k` (NumPy's float computation) and `linideal n k` (exact floor) -/
+def handleGen (op : String) (ws : List String) : String :=
+  match op with
+  | "gensegs" =>
+    match ws.mapM parseRat with
+    | some (n :: k :: rest) =>
+      let n := n.num.toNat; let k := k.num.toNat
+      if rest.length ≠ 4 * k + n then "bad-op" else
+      let arr := rest.toArray
+      let segs : List (Seg Rat) := (List.range k).map (fun j =>
+        ⟨(arr.getD (4 * j) 0).num.toNat, (arr.getD (4 * j + 1) 0).num.toNat, arr.getD (4 * j + 2) 0,
+          arr.getD (4 * j + 3) 0⟩)
+      let z (i : Nat) : Rat := arr.getD (4 * k + i) 0
+      fmtL ((List.range n).map (applySegs z segs))
+    | _ => "bad-op"
+  | "genvalid" =>
+    match ws with
+    | "changing" :: rest =>
+      match rest.mapM (·.toInt?) with
+      | some (n :: k :: more) =>
+        let k := k.toNat
+        if more.length ≠ k + 2 then "bad-op" else
+        toString (validChanging n.toNat (more.take k) (more.getD k 0).toNat (more.getD (k + 1) 0).toNat)
+      | _ => "bad-op"
+    | "anomalous" :: rest =>
+      match rest.mapM (·.toInt?) with
+      | some (n :: k :: more) =>
+        let k := k.toNat
+        if more.length ≠ 2 * k + 2 then "bad-op" else
+        let an := (List.range k).map (fun j => (more.getD (2 * j) 0, more.getD (2 * j + 1) 0))
+        toString (validAnomalous n.toNat an (more.getD (2 * k) 0).toNat (more.getD (2 * k + 1) 0).toNat)
+      | _ => "bad-op"
+    | _ => "bad-op"
+  | "linpos" =>
+    match ws.mapM (·.toNat?) with
+    | some [n, k] => toString (linspaceFloat n k)
+    | _ => "bad-op"
+  | "linideal" =>
+    match ws.mapM (·.toNat?) with
+    | some [n, k] => toString (linspaceRows n k)
+    | _ => "bad-op"
+  | _ => "bad-op"
+
+def parseOptRat (w : String) : Option (Option Rat) :=
+  if w = "none" then some none else (parseRat w).map some
+
+def cfgOut (ctor fit : Bool) : String := if !ctor then "ctor-err" else if !fit then "fit-err" else "ok"
+
+/-- `cfg <detector> <hyper-parameters…> <n> <hasNaN 0|1>` → `ok | ctor-err | fit-err` -/
+def handleCfg (ws : List String) : String :=
+  match ws with
+  | ["pelt", sc, m, n, nan] =>
+    match parseOptRat sc, parseRat m, n.toNat? with
+    | some sc, some m, some n =>
+      let c : PeltCfg := ⟨sc, m⟩
+      cfgOut c.ctorOk (c.fitOk n (nan = "1"))
+    | _, _, _ => "bad-op"
+  | ["mw", b, sc, lev, mdi, n, nan] =>
+    match parseRat b, parseOptRat sc, parseRat lev, parseRat mdi, n.toNat? with
+    | some b, some sc, some lev, some mdi, some n =>
+      let c : MwCfg := ⟨b, sc, lev, mdi⟩
+      cfgOut c.ctorOk (c.fitOk n (nan = "1"))
+    | _, _, _, _, _ => "bad-op"
+  | [d, sc, lev, m, mx, g, n, nan] =>
+    if d ≠ "sbs" ∧ d ≠ "cbs" then "bad-op" else
+    match parseOptRat sc, parseRat lev, parseRat m, parseRat mx, parseRat g, n.toNat? with
+    | some sc, some lev, some m, some mx, some g, some n =>
+      let c : BinsegCfg := ⟨sc, lev, m, mx, g⟩
+      cfgOut c.ctorOk (c.fitOk n (nan = "1"))
+    | _, _, _, _, _, _ => "bad-op"
+  | [d, cs, ps, m, mx, n, nan] =>
+    if d ≠ "capa" ∧ d ≠ "mvcapa" then "bad-op" else
+    match parseOptRat cs, parseOptRat ps, parseRat m, parseRat mx, n.toNat? with
+    | some cs, some ps, some m, some mx, some n =>
+      let c : CapaCfg := ⟨cs, ps, m, mx⟩
+      cfgOut c.ctorOk (c.fitOk n (nan = "1"))
+    | _, _, _, _, _ => "bad-op"
+  | ["stat", lo, hi, n, nan] =>   -- the wrapped detector is PELT(min_segment_length=2, penalty_scale=2)
+    match parseRat lo, parseRat hi, n.toNat? with
+    | some lo, some hi, some n =>
+      cfgOut (StatCfg.ctorOk ⟨lo, hi⟩) ((⟨some 2, 2⟩ : PeltCfg).fitOk n (nan = "1"))
+    | _, _, _ => "bad-op"
+  | _ => "bad-op"
+
 def handle (line : String) : String :=
   let ws := (line.trimAscii.toString.splitOn " ").filter (· ≠ "")
   match ws with
@@ -301,6 +396,11 @@ def handle (line : String) : String :=
   | "kern" :: rest => handleKern rest
   | "cutrow" :: rest => handleCutRow rest
   | "statanom" :: rest => handleStatAnom rest
+  | "cfg" :: rest => handleCfg rest
+  | "gensegs" :: rest => handleGen "gensegs" rest
+  | "genvalid" :: rest => handleGen "genvalid" rest
+  | "linpos" :: rest => handleGen "linpos" rest
+  | "linideal" :: rest => handleGen "linideal" rest
   | "s2d_coll" :: rest => handleConv "s2d_coll" rest
   | "d2s_coll" :: rest => handleConv "d2s_coll" rest
   | "s2d_cp" :: rest => handleConv "s2d_cp" rest
